@@ -41,6 +41,7 @@ type Decl struct {
 	CF         string `json:"collectionFormat,omitempty"` // "" csv ssv tsv pipes multi
 	Required   bool   `json:"required,omitempty"`
 	Default    bool   `json:"default,omitempty"`    // declares the standard valid default of its type
+	Alt        bool   `json:"alt,omitempty"`        // the default is the second standard value of the type (multi-operation sweep)
 	AllowEmpty bool   `json:"allowEmpty,omitempty"` // allowEmptyValue (query / formData only)
 	Valid      string `json:"valid,omitempty"`      // named validation set, see validationJSON
 }
@@ -80,7 +81,19 @@ func (d Decl) elem() (string, string) {
 
 // ---- the standard default of each type (JSON form and denotation) ----
 
-func scalarDefault(tpe, format string) (any, val) {
+func scalarDefault(tpe, format string, alt bool) (any, val) {
+	if alt && format == "" {
+		switch tpe {
+		case "integer":
+			return 5, iv(5)
+		case "number":
+			return 3.5, fv(3.5)
+		case "boolean":
+			return false, bv(false)
+		case "string":
+			return "cd", sv("cd")
+		}
+	}
 	switch tpe {
 	case "integer":
 		return 7, iv(7)
@@ -123,7 +136,7 @@ func (d Decl) defaultValue() (any, val) {
 			return []any{"ab", "cd"}, lv(sv("ab"), sv("cd"))
 		}
 	}
-	return scalarDefault(d.Type, d.Format)
+	return scalarDefault(d.Type, d.Format, d.Alt)
 }
 
 // validationJSON adds the keywords of the named validation set to m (the
@@ -136,6 +149,25 @@ func validationJSON(name, tpe string, m map[string]any) {
 		} else {
 			m["minimum"], m["maximum"] = -2.5, 1000
 		}
+	case "minmax2":
+		if tpe == "integer" {
+			m["minimum"], m["maximum"] = 0, 50
+		} else {
+			m["minimum"], m["maximum"] = 0, 500
+		}
+	case "enum2":
+		switch tpe {
+		case "integer":
+			m["enum"] = []any{2, 5, 42}
+		case "number":
+			m["enum"] = []any{3.5, 100}
+		case "boolean":
+			m["enum"] = []any{false}
+		default:
+			m["enum"] = []any{"cd", "ef"}
+		}
+	case "len2":
+		m["minLength"], m["maxLength"] = 1, 2
 	case "exclusive":
 		if tpe == "integer" {
 			m["minimum"], m["maximum"] = -3, 100
@@ -222,7 +254,7 @@ func decoyText(d Decl) string {
 	case "boolean":
 		return "true"
 	case "string":
-		if j, _ := scalarDefault(t, f); f != "" {
+		if j, _ := scalarDefault(t, f, false); f != "" {
 			return j.(string)
 		}
 	}
